@@ -169,4 +169,19 @@ theorem chan_wellPaired (threaded closed : Nat) (limit : Int) (items : List Val)
   ⟨.byte fun _ => .int fun _ => .int fun count => if count < 0 then .fail else janetN count.toNat .done,
     by simp [chanProg, chanItems, acceptsPre], by simpa [chanItems] using acceptsPost_append_janets items h closed limit⟩
 
+theorem acceptsPost_intN (is : List Int) (rest : List AItem) (k : Prog) (h : acceptsPost k rest = true) :
+    acceptsPost (intN is.length k) (is.map .int ++ rest) = true := by
+  induction is with
+  | nil => simpa [intN] using h
+  | cons i is ih => simpa [intN, acceptsPost] using ih
+
+theorem peg_wellPaired (bytecode : List Int) (constants : List Val) (hb : bytecode.length ≤ 2147483647)
+    (hc : constants.length < 2147483648) :
+    WellPaired pegProg (pegItems bytecode constants).1 (pegItems bytecode constants).2 := by
+  have h1 : ¬ (bytecode.length > 2147483647 ∨ (constants.length : Int) < 0) := by omega
+  refine ⟨intN bytecode.length (janetN constants.length .done), ?_, ?_⟩
+  · simp [pegProg, pegItems, acceptsPre, h1]
+  · have := acceptsPost_intN bytecode (constants.map .janet) (janetN constants.length .done) (acceptsPost_janetN constants)
+    simpa [pegItems] using this
+
 end JanetModel.Marsh
